@@ -180,6 +180,24 @@ func C03Plan() *vlib.Plan {
 		}
 		p.Bounds = map[string]any{"server_role_peers": len(c03ServerPeers), "client_role_peers": len(c03ClientPeers), "method_lists": 4}
 		for _, role := range []string{"client", "server"} {
+			for _, kind := range []string{"plain", "authed-keyless", "keyed-unauth"} {
+				role, kind := role, kind
+				yield(vlib.Case{ID: fmt.Sprintf("resumed/%s/%s", role, kind), Run: func() *vlib.Result {
+					res := &vlib.Result{}
+					for _, a := range c10Levels {
+						for _, e := range c10Levels {
+							c03Resumed(res, role, kind, a, e)
+							res.Transitions += 2
+						}
+					}
+					for o := range res.Outcomes {
+						res.States = append(res.States, fmt.Sprintf("resumed/%s/%s:%s", role, kind, o))
+					}
+					return res
+				}})
+			}
+		}
+		for _, role := range []string{"client", "server"} {
 			peers := c03ServerPeers
 			if role == "server" {
 				peers = c03ClientPeers
@@ -208,4 +226,83 @@ func C03Plan() *vlib.Plan {
 		}
 	}
 	return p
+}
+
+// ---- resumed handshakes under a policy that differs from the one the session
+// was created under ----
+
+// c03Resumed: a session is established honestly under a lenient policy
+// (kind: "plain" = unauthenticated plaintext, "authed-keyless" = authenticated,
+// no cipher in common, "keyed-unauth" = encrypted but unauthenticated), then the
+// endpoint under test (role) resumes it while its OWN policy is (auth, enc).
+func c03Resumed(res *vlib.Result, role, kind string, auth, enc security.SecurityLevel) {
+	res.Evals++
+	var ca, ce security.SecurityLevel
+	var methods []security.AuthMethod
+	cc, sc := []security.CryptoMethod{security.CryptoAES}, []security.CryptoMethod{security.CryptoAES}
+	switch kind {
+	case "plain":
+		ca, ce = security.SecurityNever, security.SecurityNever
+		cc, sc = nil, nil
+	case "authed-keyless":
+		ca, ce, methods = security.SecurityRequired, security.SecurityOptional, []security.AuthMethod{mCTB}
+		sc = []security.CryptoMethod{security.CryptoBlowfish}
+	case "keyed-unauth":
+		ca, ce = security.SecurityNever, security.SecurityRequired
+	}
+	cache := security.NewSessionCache()
+	c0 := baseCfg(ca, ce, methods, cc, false)
+	s0 := baseCfg(ca, ce, methods, sc, true)
+	c0.SessionCache, c0.Command = cache, 5
+	r0 := hsRun(hsOpts{ClientCfg: c0, ServerCfg: s0, App: true})
+	if r0.C.Err != nil || r0.S.Err != nil {
+		res.Violate("C03/harness-resumed-setup/"+kind, "cannot establish: %v / %v", r0.C.Err, r0.S.Err)
+		return
+	}
+	sid := r0.S.Neg.SessionId
+	defer security.GetSessionCache().Invalidate(sid)
+	sessAuthed := r0.S.Neg.Authentication
+	// second connection: E has the strict policy, the peer keeps the lenient one
+	c1 := baseCfg(ca, ce, methods, cc, false)
+	s1 := baseCfg(ca, ce, methods, sc, true)
+	c1.SessionCache, c1.Command, c1.SessionID = cache, 5, sid
+	if role == "client" {
+		c1.Authentication, c1.Encryption = auth, enc
+	} else {
+		s1.Authentication, s1.Encryption = auth, enc
+	}
+	r := hsRun(hsOpts{ClientCfg: c1, ServerCfg: s1, App: true})
+	E := &r.C
+	canary := "ping-from-client"
+	wire := r.C2S
+	if role == "server" {
+		E, canary, wire = &r.S, "pong-from-server", r.S2C
+	}
+	id := fmt.Sprintf("role=%s session=%s own-auth=%s own-enc=%s", role, kind, lv(auth), lv(enc))
+	if E.Err != nil {
+		res.Outcome("resumed-E-refused")
+		res.Nontrivial++
+		return
+	}
+	res.Nontrivial++
+	// a resumption is what the wire says it is (WasSessionResumed is only set for keyed sessions)
+	onWire := false
+	if len(r.C2S) > 0 && len(r.C2S[0]) > 13 {
+		onWire = (&wireReader{b: r.C2S[0][13:]}).ad().str("UseSession") == "YES"
+	}
+	if !onWire {
+		res.Outcome("resumed-not-a-resumption")
+		return
+	}
+	key := func(k string) string { return fmt.Sprintf("C03/resumed/%s/%s/%s", k, role, kind) }
+	if auth == security.SecurityRequired && !sessAuthed {
+		res.Violate(key("auth-required-session-unauthenticated"), "%s: handshake succeeded by resuming a session that was never authenticated (reports Authentication=%v)", id, E.Neg.Authentication)
+	}
+	if enc == security.SecurityRequired && (!E.Stream.IsEncrypted() || framesContain(wire, canary)) {
+		res.Violate(key("enc-required-session-plaintext"), "%s: handshake succeeded by resuming a key-less session; the stream is plaintext (IsEncrypted=%v, reports Encryption=%v)", id, E.Stream.IsEncrypted(), E.Neg.Encryption)
+	}
+	if E.Neg.Encryption != E.Stream.IsEncrypted() {
+		res.Violate(key("enc-flag-not-real"), "%s: reports Encryption=%v, stream %v", id, E.Neg.Encryption, E.Stream.IsEncrypted())
+	}
+	res.Outcome("resumed-E-ok")
 }
